@@ -321,3 +321,71 @@ def check_translate(chk, F, R):
         except Panic as e:
             chk.fail(R, t, "panic: %s" % e, where="src/descriptor")
     chk.floor(R, "descriptors", n, 60)
+
+
+# ---- the output types' own parsers (C10) ---------------------------------------------------------------------------------
+
+WRAPPERS = {"Bare": "descriptor::bare::Bare", "Pkh": "descriptor::bare::Pkh", "Wpkh": "descriptor::segwitv0::Wpkh",
+            "Wsh": "descriptor::segwitv0::Wsh", "Sh": "descriptor::sh::Sh", "Tr": "descriptor::tr::Tr"}
+
+
+def outer_kind(t):
+    head = t.split("(")[0]
+    return {"pkh": "Pkh", "wpkh": "Wpkh", "wsh": "Wsh", "sh": "Sh", "tr": "Tr"}.get(head, "Bare")
+
+
+def check_wrapper_parsers(chk, F, R):
+    chk.rule(R, "the output types' own FromStr (Bare, Pkh, Wpkh, Wsh, Sh, Tr - public entry points beside Descriptor::from_str): "
+                "on whole descriptor texts of every output type, with and without a (right or wrong) checksum, each accepts "
+                "exactly the texts of its own type and then gives the very value Descriptor::from_str wraps; to_string of the "
+                "result is the text")
+    H = Harness(F)
+    m = H.m
+    fs = {}
+    for k, adt in WRAPPERS.items():
+        ps = [it["path"] for i in F.impls if i["trait"] == "std::str::FromStr" and i["self_adt"] == adt
+              for it in i["items"] if it["name"] == "from_str" and it["path"] in F.bodies]
+        if len(ps) != 1:
+            chk.fail(R, "anchor|" + k, "FromStr for %s not found" % adt, kind="unanalysable")
+            return
+        fs[k] = ps[0]
+    chk.saw(*fs.values())
+    texts = family(chk.tier)
+    n = 0
+    bad = {}
+    try:
+        for t in texts:
+            d = H.parse(t)
+            out_, _ = tm.display(m, d, alternate=False)
+            full = "".join(map(str, out_))            # with checksum
+            if "#" not in full or full.split("#")[0] != t:
+                raise Unsupported("printed form of %s is %s" % (t, full))
+            kind = outer_kind(t)
+            if d.variant != kind:
+                raise Unsupported("family text %s parsed as %s" % (t, d.variant))
+            wrong = full[:-1] + ("q" if full[-1] != "q" else "p")
+            for k, p in sorted(fs.items()):
+                for form, text in (("plain", t), ("checksum", full), ("wrong-checksum", wrong)):
+                    n += 1
+                    r = m.call_callee({"def": p, "resolved": p, "name": "from_str", "targs": [c10.STRING]}, [text])
+                    # (`pkh(K)` is also the miniscript c:pk_h(K), which a bare output may hold: Bare reads it as that)
+                    accept = (k == kind or (k == "Bare" and kind == "Pkh")) and form != "wrong-checksum"
+                    msg = None
+                    if (r.variant == "Ok") != accept:
+                        msg = "%s::from_str(%s) is %s" % (k, text, "accepted" if r.variant == "Ok" else "refused: " + repr(r)[:100])
+                    elif accept and k == kind and repr(B.deref(r.fields["0"])) != repr(B.deref(d.fields["0"])):
+                        msg = "%s::from_str(%s) differs from what Descriptor::from_str wraps: %s" % (k, text, repr(r.fields["0"])[:160])
+                    if msg:
+                        bad.setdefault((k, form), []).append(msg)
+    except (ValueError, Unsupported) as e:
+        chk.fail(R, "unanalysable", "unanalysable: %s" % e, where=getattr(e, "where", ""), kind="unanalysable")
+        return
+    except Panic as e:
+        chk.fail(R, "panic", "panic: %s" % e, where="src/descriptor")
+        return
+    for k in sorted(fs):
+        for form in ("plain", "checksum", "wrong-checksum"):
+            v = bad.get((k, form), [])
+            chk.obligation(R, not v, "%s|%s" % (k, form), "%d text(s); first: %s" % (len(v), v[0] if v else ""),
+                           where="src/descriptor", detail=v[:8])
+    chk.floor(R, "parses", n, 1000)
